@@ -81,6 +81,9 @@ class HNative:
             n *= s
         return self.torch.tensor([self.int(f'{name}[{i}]') for i in range(n)], dtype=self.torch.int64).reshape(shape)
 
+    def scalar_tensor(self, v):
+        return self.torch.tensor(v)
+
     def const_tensor(self, values):
         return self.torch.tensor(values)
 
@@ -223,17 +226,18 @@ class HNative:
             return all(f(u, v) for u, v in zip(x.reshape(-1).tolist(), y.reshape(-1).tolist()))
         return f(a, b)
 
+    # order comparisons are exact (they also occur in antecedents); only equality is tolerant (float round-off)
     def le(self, a, b):
-        return self._cmp(a, b, lambda u, v: u <= v + self._tol(u, v))
+        return self._cmp(a, b, lambda u, v: u <= v)
 
     def lt(self, a, b):
-        return self._cmp(a, b, lambda u, v: u < v + self._tol(u, v))
+        return self._cmp(a, b, lambda u, v: u < v)
 
     def ge(self, a, b):
-        return self._cmp(a, b, lambda u, v: u >= v - self._tol(u, v))
+        return self._cmp(a, b, lambda u, v: u >= v)
 
     def gt(self, a, b):
-        return self._cmp(a, b, lambda u, v: u > v - self._tol(u, v))
+        return self._cmp(a, b, lambda u, v: u > v)
 
     def all(self, t):
         if self.torch.is_tensor(t):
